@@ -1,6 +1,6 @@
 /* Correspondence + monitor driver for the rolling hash (property C09).
  *
- *   drv_rolling <impl> <seed> <nops> <maxlen> <ops_out> <res_out>      impl = base | 00 | 04 | pub
+ *   drv_rolling <impl> <seed> <nops> <maxlen> <ops_out> <res_out> [big=1]   impl = base | 00 | 04 | pub
  *
  * Generates an operation history from one PRNG, executes it on the library built from the current
  * tree, writes the operation lines (input of the Lean driver `rh_model`) to <ops_out> and one
@@ -22,12 +22,16 @@
  *   C09-offset-beyond-max-len     a run call returned *offset > max_len
  *   C09-scan-disagrees-with-base  the same call on a copy of the state, with the base scan, gave a
  *                                 different (ret, offset, hash, history)
+ *   C09-large-len-*               (only with big=1) one extra call with max_len >= 2^31, see big_op()
  * After a monitor fires the state is replaced by the base scan's state so that the following
  * operations are again comparable one by one with the model.  At the end the smallest failing
  * operation (by max_len, then window) is repeated as "MONITOR <id> MINIMAL ..." and a SUMMARY line
  * gives the hit rate.
  */
+#define _GNU_SOURCE
 #include "common.h"
+#include <sys/mman.h>
+#include <unistd.h>
 #include "rolling_hashx.h"
 
 typedef uint64_t (*scan_fn)(uint32_t *idx, int max_idx, uint64_t *t1, uint64_t *t2, uint8_t *b1,
@@ -188,14 +192,106 @@ keep_min(failrec *min, const failrec *f)
                 *min = *f, min->set = 1;
 }
 
+/* ------------------------------------------------------------------ max_len >= 2^31
+
+ * One call over more than 2 GiB, checked by monitors only (the model cannot expand the data).
+ * The data is a 3 GiB virtual window that aliases one 2 MiB pattern (a memfd mapped 1536 times
+ * over a PROT_NONE reservation), so data[i] = pattern[(off + i) mod 2 MiB].  Because the window is
+ * at most 48 bytes, the hash at position p >= w depends on p mod 2 MiB only: a trigger that does not
+ * hit anywhere in the first 4 MiB (found with the base scan, mask = 0xffffffff) cannot hit later.
+ * Expected therefore: MAX, *offset == max_len, and state = what reset() computes from the last w
+ * bytes (hash and history).  Before commit 4824648 the base scan returned offset == w here (F4). */
+#define PAT (2u << 20)
+#define BIGWIN (3ull << 30)
+
+static uint8_t *
+big_window(uint64_t seed)
+{
+        int fd = memfd_create("rh_pattern", 0);
+        if (fd < 0 || ftruncate(fd, PAT))
+                return NULL;
+        uint8_t *p = mmap(NULL, PAT, PROT_READ | PROT_WRITE, MAP_SHARED, fd, 0);
+        if (p == MAP_FAILED)
+                return NULL;
+        xs_bytes(seed, p, PAT);
+        munmap(p, PAT);
+        uint8_t *base = mmap(NULL, BIGWIN, PROT_NONE, MAP_PRIVATE | MAP_ANONYMOUS | MAP_NORESERVE, -1, 0);
+        if (base == MAP_FAILED)
+                return NULL;
+        for (uint64_t o = 0; o < BIGWIN; o += PAT)
+                if (mmap(base + o, PAT, PROT_READ, MAP_SHARED | MAP_FIXED, fd, 0) == MAP_FAILED)
+                        return NULL;
+        close(fd);
+        return base;
+}
+
+/* returns the number of failed checks; prints one BIG line (compared across impls by the caller) */
+static long
+big_op(const char *impl, scan_fn sel_scan, rng_t *r, struct isal_rh_state2 *st, struct isal_rh_state2 *ref)
+{
+        long fail = 0;
+        uint64_t pseed = rng_u64(r) >> 1;
+        uint8_t *base = big_window(pseed);
+        if (!base) {
+                printf("MONITOR C09-large-len-setup-failed impl=%s (memfd/mmap)\n", impl);
+                return 1;
+        }
+        uint32_t w = pick_window(r);
+        uint64_t iseed = rng_u64(r) >> 1;
+        uint8_t initb[ISAL_FINGERPRINT_MAX_WINDOW];
+        xs_bytes(iseed, initb, w);
+        uint8_t *buf = base + rng_below(r, PAT);
+        static const uint32_t lens[] = { 0x80000000u, 0x80000001u, 0x80000002u };
+        uint32_t c = rng_below(r, 5);
+        uint32_t len = c < 3 ? lens[c] : 0x80000000u + rng_below(r, 1u << 20);
+        uint32_t mask = 0xffffffffu, trig, off = 0xdeadbeef;
+        int ret = -1;
+
+        for (;;) { /* a trigger without a hit in the first two periods, hence without any hit */
+                trig = (uint32_t) rng_u64(r);
+                isal_rolling_hash2_init(st, w);
+                isal_rolling_hash2_reset(st, initb);
+                cur_scan = _rolling_hash2_run_until_base;
+                isal_rolling_hash2_run(st, buf, 2 * PAT + 64, mask, trig, &off, &ret);
+                if (ret == ISAL_FINGERPRINT_RET_MAX && off == 2 * PAT + 64)
+                        break;
+        }
+        isal_rolling_hash2_init(st, w);
+        isal_rolling_hash2_reset(st, initb);
+        off = 0xdeadbeef, ret = -1;
+        cur_scan = sel_scan;
+        isal_rolling_hash2_run(st, buf, len, mask, trig, &off, &ret);
+
+        isal_rolling_hash2_init(ref, w); /* expected final state: the last w bytes, by reset() */
+        isal_rolling_hash2_reset(ref, buf + len - w);
+
+        printf("BIG impl=%s w=%u patseed=%llu patoff=%llu initseed=%llu len=%u mask=%u trig=%u ret=%d off=%u "
+               "h=%016llx\n",
+               impl, w, (unsigned long long) pseed, (unsigned long long) (buf - base),
+               (unsigned long long) iseed, len, mask, trig, ret, off, (unsigned long long) st->hash);
+        if (ret != ISAL_FINGERPRINT_RET_MAX || off != len) {
+                printf("MONITOR C09-large-len-offset impl=%s w=%u len=%u: expected ret=1 off=%u, got ret=%d off=%u\n",
+                       impl, w, len, len, ret, off);
+                fail++;
+        }
+        if (st->hash != ref->hash || memcmp(st->history, buf + len - w, w)) {
+                printf("MONITOR C09-large-len-state impl=%s w=%u len=%u: hash %016llx expected %016llx, history %s\n",
+                       impl, w, len, (unsigned long long) st->hash, (unsigned long long) ref->hash,
+                       memcmp(st->history, buf + len - w, w) ? "differs from the last w bytes" : "ok");
+                fail++;
+        }
+        munmap(base, BIGWIN);
+        return fail;
+}
+
 #define SLACK 64 /* readable canary bytes after the data: an over-read is observed, not fatal */
 
 int
 main(int argc, char **argv)
 {
-        if (argc != 7) {
+        if (argc != 7 && argc != 8) {
                 fprintf(stderr, "usage: drv_rolling <base|00|04|pub> <seed> <nops> <maxlen> <ops_out> "
-                                "<res_out>\n");
+                                "<res_out> [big=1]\n");
                 return 2;
         }
         const char *impl = argv[1];
@@ -314,14 +410,19 @@ main(int argc, char **argv)
                                 memcpy(st, ref, sizeof *st);
                 }
         }
+        long nbig = 0, nbigfail = 0;
+        if (argc == 8 && !strcmp(argv[7], "big=1")) { /* after the history: same choices for every impl */
+                nbig = 1;
+                nbigfail = big_op(impl, sel_scan, &r, st, ref);
+        }
         if (min_beyond.set)
                 print_fail("C09-offset-beyond-max-len", " MINIMAL", impl, &min_beyond);
         if (min_dis.set)
                 print_fail("C09-scan-disagrees-with-base", " MINIMAL", impl, &min_dis);
         printf("SUMMARY impl=%s seed=%llu ops=%ld runs=%ld hits=%ld hit_rate=%.3f bytes=%ld "
-               "offset_beyond_max_len=%ld scan_disagrees=%ld\n",
+               "offset_beyond_max_len=%ld scan_disagrees=%ld large_len_ops=%ld large_len_failures=%ld\n",
                impl, (unsigned long long) seed, nops, nrun, nhit, nrun ? (double) nhit / nrun : 0.0, nbytes,
-               nbeyond, ndis);
+               nbeyond, ndis, nbig, nbigfail);
         fclose(ops);
         fclose(res);
         return 0;
